@@ -107,10 +107,10 @@ theorem relDiffOld_eq (a b : ℚ) (h : a ≠ 0 ∨ b ≠ 0) : relDiffOld a b = s
 theorem round_defined (N : ℚ) (d : ℕ) (hd : d ≤ 7) : round N d = .ok (roundExact N d) :=
   round_eq_roundExact N d hd
 
-/-- **digits > 7 → diagnostic** (any non-zero argument, any exponent); `Round(0,d) = 0` for every `d` -/
+/-- **digits > 7 → diagnostic** (any argument, zero included, any exponent); `Round(0,d) = 0` for `d ≤ 7` -/
 theorem round_digits_guard (N : ℚ) (d : ℕ) (e : Int) :
-    (N ≠ 0 → 7 < d → roundSig N d e = .error .diag) ∧ roundSig 0 d e = .ok 0 :=
-  ⟨fun hN hd => roundSig_guard N d e hN hd, round_zero d e⟩
+    (7 < d → roundSig N d e = .error .diag) ∧ (d ≤ 7 → roundSig 0 d e = .ok 0) :=
+  ⟨fun hd => roundSig_guard N d e hd, fun hd => round_zero d e hd⟩
 
 /-- **round_odd**: for every exponent parameter, and for the exact exponent -/
 theorem round_odd (N : ℚ) (d : ℕ) :
